@@ -165,6 +165,23 @@ CHECKS = {
    design_ref='DESIGN.md par.5 C17',
    note='hashlib algorithms are C code; chunked path <= 3 chunks with <= 2 short reads; name '
         'table compared with GLEP 59/74 as a constant'),
+ 'C18': dict(
+   text='verify_entry_compatibility on all 7x7 entry kinds with symbolic sizes/digests and '
+        'manifest_hashes_to_hashlib on odd names return or raise library exceptions only; '
+        'gemato.cli.main (verify, update, sub-directory update, create; three profiles; '
+        'keep-going) on model trees carrying one of 11 odd features ends with exit status 0/1 or '
+        'a genuine OSError - no attribute/key/index/type/assertion/value error escapes.',
+   design_ref='DESIGN.md par.5 C18',
+   note='one odd feature per tree; text-level totality is C09; argparse usage errors excluded'),
+ 'C19': dict(
+   text='The profile policy functions on structured symbolic paths (components by symbolic '
+        'choice from policy literals and near-misses, or with a free code point) against a '
+        'policy table transcribed from the statement; create with each profile on a miniature '
+        'repository with symbolic presence bits: Manifests exactly where the policy wants them, '
+        'default IGNOREs, entry types, hash set, sorting, watermark compression, and a fresh '
+        'default-profile verification.',
+   design_ref='DESIGN.md par.5 C19',
+   note='one repository skeleton (S-repo); policy transcription is the oracle'),
 }
 
 NOT_APPLICABLE = {
